@@ -123,6 +123,7 @@ def c05(ctx):
     RA.rule_mono(ctx, {"cms"})
     RA.rule_logstep(ctx)
     RA.rule_nadd_once(ctx, RA.add_kernels(F))
+    RA.rule_cap(ctx, COUNTMIN)          # add(key, v): v is capped at the ceiling before it reaches the typed kernel parameter (no wrap to v mod 2^32)
     RT.rule_wrapper_once(ctx, COUNTMIN, ("add", "query"))
     RA.rule_no_skip(ctx, RA.add_kernels(F))
     RT.rule_observers(ctx, COUNTMIN)
@@ -160,6 +161,7 @@ def c03(ctx):
     RH.rule_bm_table(ctx)
     RH.rule_keylen_inv(ctx)
     RH.rule_keynorm(ctx)          # the buffer that is compared and stored holds the key's own bytes (zero padded), for writer and reader alike
+    RA.rule_attr_type(ctx, hh)    # no kernel parameter narrower than the attribute it receives (a truncated max_key_len / ceiling changes identities and counts)
     RA.rule_range(ctx, {"lhh_count"})
     RA.rule_cap(ctx, hh)
     RA.rule_call_range(ctx, only=RA.class_kernels(F, hh))
@@ -210,6 +212,8 @@ def c04(ctx):
     RH.rule_filter(ctx)
     RH.rule_topk(ctx)
     RH.rule_mutators(ctx)
+    RA.rule_attr_type(ctx, hh)                                     # a multiplicity / width / length truncated on its way into a kernel under-counts
+    RA.rule_call_range(ctx, only=RA.class_kernels(F, hh))
     RT.rule_deleg(ctx, hh)
     RT.rule_value_fwd(ctx, hh)
     ctx.floor("keyid", 3)
@@ -244,6 +248,8 @@ def c13(ctx):
     RA.rule_sumcounters(ctx, [ks["merge"]])
     RT.rule_wrapper_once(ctx, hh)
     RT.rule_state_owner(ctx, hh, methods=("query", "generate_candidate_set", "add", "add_ngram", "merge", "__getitem__"))
+    RH.rule_keynorm(ctx)           # "each count equal to hh[key]": the scan and __getitem__ hand the reader kernel the same normalised key
+    RT.rule_post_load(ctx)         # "... equals the answer of a freshly loaded copy": the loader rebuilds the candidate cache
     RT.rule_observers(ctx, hh)
     ctx.floor("cachekey", 6)
     ctx.floor("mutators", 3)
@@ -368,6 +374,7 @@ def c12(ctx):
     RA.rule_logstep(ctx)
     RM.rule_randtoken(ctx)
     RA.rule_newcount(ctx)
+    RA.rule_nadd_once(ctx, RA.add_kernels(facts_of(ctx)))       # add(key, v) moves the bookkeeping counter by v, once: the same as v single adds
     ctx.floor("logstep", 8)
     ctx.floor("deleg", 12)
     ctx.floor("window", 20)
@@ -434,6 +441,8 @@ def c17(ctx):
     # query() is the kernel's value of the CURRENT registers on every path (no cached answer)
     RT.rule_wrapper_once(ctx, hll, ("query",))
     RT.rule_state_owner(ctx, hll, methods=("query",))    # C17 is about query()
+    RA.rule_attr_type(ctx, hll, methods=("query",))      # p, m, alpha, the threshold and the tables reach the estimator at full width
+    RA.rule_call_range(ctx, only=RA.class_kernels(facts_of(ctx), hll, ("query",)))
     ctx.floor("wrapper-once", 3)
     ctx.floor("qtree", 6)
     ctx.floor("forms", 7)
@@ -581,6 +590,8 @@ def c08(ctx):
     RT.rule_argsdict(ctx)          # workers and mergers rebuild their views from `.args`: it must record the constructor's own arguments
     with ctx.only({"layout"}):
         RT.rule_layout(ctx)        # workers fill their sketches through attached views: owner and attacher must lay the block out identically
+    RT.rule_owner(ctx)             # a worker's or merger's view going away must not take the owner's segment with it
+    RT.rule_state_owner(ctx, methods=("add", "add_ngram", "update", "update_ngram", "merge"))   # ... and its writes must land in the block, not in a rebound private array
     mk = RA.merge_kernels(F)
     RA.rule_sumcounters(ctx, [k for k in mk if F.param_for(k, "n_added_records")], rule="nrecs")
     RA.rule_cover(ctx, [k for k in mk if k.parallel])
